@@ -566,6 +566,12 @@ TARGETS = [
                   read_calls={"Idx<u32>::parse": "takeLE bs 4", "Count<u32>::parse": "takeLE bs 4", "IndexFreeData::parse": "takeBytes bs 4",
                               "PString::parse": "takePString bs"},
                   struct_as={"Self": ["store_id", "entry_count", "entry_offset", "free_data", "index_property", "name"]})),
+    dict(name="plainStoreKeySize", group="Dir", file="src/creator/directory_pack/value_store.rs", fn="key_size", after=r"impl PlainValueStore",
+         cfg=dict(params=[("size_", N)], ret=N, exprs={"self.size()": "size_"}, methods={"into_u64": "{recv}"},
+                  funcs={"needed_bytes": "((Generated.neededBytes {0}).getD 0)"})),
+    dict(name="indexedStoreKeySize", group="Dir", file="src/creator/directory_pack/value_store.rs", fn="key_size", after=r"impl IndexedValueStore",
+         cfg=dict(params=[("count", N)], ret=N, exprs={"self.0.sorted_indirect.len()": "count"},
+                  funcs={"needed_bytes": "((Generated.neededBytes {0}).getD 0)"})),
 ]
 
 
